@@ -887,15 +887,13 @@ func TestRoundTripLibrary(t *testing.T) {
 	for l := 0; l < 4; l++ {
 		for _, m := range modes {
 			for n, v := range lengthsFor(m.mode, l) {
-				if m.lib == qr.Auto && v > 10 && v != 40 {
-					continue // keep the run time down
-				}
 				jobs = append(jobs, job{l, m.lib, m.mode, n, v, m.name})
 			}
 		}
 	}
 	var mu sync.Mutex
 	fails := 0
+	var masksSeen [8]int
 	report := func(format string, args ...interface{}) {
 		mu.Lock()
 		defer mu.Unlock()
@@ -932,6 +930,9 @@ func TestRoundTripLibrary(t *testing.T) {
 					report("%s: Decode: %v", id, err)
 					continue
 				}
+				mu.Lock()
+				masksSeen[r.Mask]++
+				mu.Unlock()
 				if !bytes.Equal(r.Content, content) {
 					report("%s: content mismatch: got %d bytes %.40q, want %d bytes %.40q", id, len(r.Content), r.Content, len(content), content)
 				}
@@ -952,7 +953,12 @@ func TestRoundTripLibrary(t *testing.T) {
 	}
 	close(ch)
 	wg.Wait()
-	t.Logf("%d library round trips in %v, %d failures", len(jobs), time.Since(start), fails)
+	t.Logf("%d library round trips in %v, %d failures, masks seen %v", len(jobs), time.Since(start), fails, masksSeen)
+	for m, n := range masksSeen {
+		if n == 0 && fails == 0 {
+			t.Errorf("mask %d never produced by the library in this corpus", m)
+		}
+	}
 }
 
 // Content one character over the version-40 capacity must be refused by the
@@ -1001,6 +1007,33 @@ func TestEmptyContentLibrary(t *testing.T) {
 	}
 }
 
+// Observation only (never fails): in Numeric and Auto mode the library accepts
+// a '+' (or a '-' in front of an all-zero group) as the first character of a
+// 3-character group and encodes it as the digit 0, so the symbol does not carry
+// the input. Such inputs are excluded from the round trip test above.
+func TestLibrarySignedNumericObservation(t *testing.T) {
+	for _, m := range []qr.Encoding{qr.Numeric, qr.Auto} {
+		for _, s := range []string{"+12", "-0", "+1", "-00", "123+45", "123-0", "+12+34", "-12", "12+"} {
+			bc, err := qr.Encode(s, qr.M, m)
+			if err != nil {
+				t.Logf("mode %v %q: refused: %v", m, s, err)
+				continue
+			}
+			g, _, _, _ := grid.FromImage(bc, color.Black, color.White)
+			r, err := Decode(g)
+			if err != nil {
+				t.Logf("mode %v %q: decode error %v", m, s, err)
+				continue
+			}
+			note := "ok"
+			if string(r.Content) != s {
+				note = "LIBRARY DEFECT: symbol does not carry the input"
+			}
+			t.Logf("mode %v %q -> %q segments %+v: %s", m, s, r.Content, r.Segments, note)
+		}
+	}
+}
+
 // ---------------------------------------------------------------------------
 // (4) Negative tests: single module flips
 
@@ -1023,8 +1056,8 @@ func TestSingleModuleFlips(t *testing.T) {
 	}{
 		{"lib v7", encodeLib(t, content, qr.Q, qr.AlphaNumeric)},
 		{"lib v1", encodeLib(t, "0123456", qr.M, qr.Numeric)},
-		{"lib v2", encodeLib(t, "hello, world", qr.L, qr.Unicode)},
-		{"lib v14", encodeLib(t, strings.Repeat("x", 300), qr.M, qr.Unicode)},
+		{"lib v2", encodeLib(t, "hello, world; hello, moon", qr.L, qr.Unicode)},
+		{"lib v14", encodeLib(t, strings.Repeat("x", 350), qr.M, qr.Unicode)},
 	} {
 		g := src.g
 		base, err := Decode(g)
@@ -1033,6 +1066,9 @@ func TestSingleModuleFlips(t *testing.T) {
 		}
 		if src.name == "lib v7" && base.Version != 7 {
 			t.Fatalf("expected version 7, got %d", base.Version)
+		}
+		if want := map[string]int{"lib v7": 7, "lib v1": 1, "lib v2": 2, "lib v14": 14}[src.name]; base.Version != want {
+			t.Fatalf("%s: got version %d", src.name, base.Version)
 		}
 		kinds := map[string]int{}
 		for y := 0; y < g.H; y++ {
